@@ -120,7 +120,9 @@ impl<'a, R: BufRead> Asc2DltMsgIterator<'a, R> {
 
     fn timestamp_dms_from(&self, timestamp_us: i64) -> u32 {
         if timestamp_us >= 0 {
-            self.timestamp_offset_dms + ((timestamp_us / 100) as u32)
+            // the timestamp is a wrapping u32 counter (the `as u32` truncates already)
+            self.timestamp_offset_dms
+                .wrapping_add((timestamp_us / 100) as u32)
         } else if self.timestamp_offset_dms > 0 {
             self.timestamp_offset_dms
                 .saturating_sub((-timestamp_us / 100) as u32)
@@ -196,7 +198,7 @@ fn parse_signed_time_str(timestamp: &str) -> i64 {
     let timestamp_secs_us: i64 = timestamp[offset_timestamp..dot_idx]
         .parse::<i64>()
         .unwrap_or_default()
-        * (US_PER_SEC as i64);
+        .saturating_mul(US_PER_SEC as i64);
     let timestamp_fraction_us = if dot_idx < timestamp.len() {
         let timestamp_fraction_str = &timestamp[dot_idx + 1..];
         let mut len_fraction = timestamp_fraction_str.len();
@@ -216,7 +218,7 @@ fn parse_signed_time_str(timestamp: &str) -> i64 {
     } else {
         0
     };
-    let timestamp_us = timestamp_secs_us + timestamp_fraction_us;
+    let timestamp_us = timestamp_secs_us.saturating_add(timestamp_fraction_us);
     if timestamp_is_neg {
         -timestamp_us
     } else {
